@@ -11,7 +11,7 @@ const L_PRELUDE: &str = "f = |a, b = 0, c = 0, d = 0, e = 0| (a, b, c, d, e)\nms
 /// classes the unchanged tree (/repo at e003922) does not accept
 const LAYOUT_NOT_ACCEPTED: &[(&str, &str)] = &[
     ("closer:index", "consume_index_expression parses with a restricted context: no line break inside `l[…]` (not a documented layout)"),
-    ("match-pos:closer-after-last-arm", "F-C10-11: a token that follows the last arm on its line is taken for another arm"),
+    ("match-pos:closer-after-block-body", "parse_indented_block: the last line of an indented block ends at a line break — a closing bracket directly after it is refused for every kind of block (if, function, arm body); uniform, not a documented layout"),
 ];
 
 #[derive(Clone, Copy, PartialEq)]
@@ -546,6 +546,10 @@ impl Ctx {
                 if pos.starts_with("operand") && !with_else {
                     continue;
                 }
+                // the closer directly after the last arm: asserted when that arm's body is inline
+                let last_inline = with_else || (narms - 1 + sel) % 2 == 0;
+                let pos_s = if pos.starts_with("closer-after-last-arm") && !last_inline { pos.replace("closer-after-last-arm", "closer-after-block-body") } else { pos.to_string() };
+                let pos = pos_s.as_str();
                 let b = base.replace("POS", &one);
                 let v = format!("{}t = 0\n{}\nprint x\nprint n\n", prelude, block);
                 let b = b.replace(&format!("t = {}", head), &format!("t = 0\nt = {}", head));
